@@ -479,6 +479,14 @@ class AllOf:
         self.conds = conds
 
 
+class RatioEQ:
+    """n1/d1 == n2/d2 for positive denominators, decided as n1*d2 == n2*d1 (the only non-linear obligation kind;
+    small, handed to z3's non-linear real arithmetic; `unknown` makes the check inconclusive)"""
+
+    def __init__(self, n1, d1, n2, d2):
+        self.parts = (n1, d1, n2, d2)
+
+
 # ----------------------------------------------------------------------------------------------
 # explorers
 
@@ -537,6 +545,7 @@ class Explorer(BaseExplorer):
         self.errors = []
         self.crashed = 0
         self.crash_msgs = []
+        self.record_fn = None
         self.smt_dump = []  # sampled obligations for the second solver
         self.smt_dump_every = 0
 
@@ -552,6 +561,7 @@ class Explorer(BaseExplorer):
         self.choices = {}
         self.path_events = []
         self.nforks = 0
+        self.path_state = {}
         self.asserted = []  # z3 constraints of PC (for dumps)
 
     def _add(self, c):
@@ -676,7 +686,7 @@ class Explorer(BaseExplorer):
             self._add(v > lo if lo_strict else v >= lo)
         if hi is not None:
             self._add(v < hi if hi_strict else v <= hi)
-        if self.witness is not None:
+        if self.witness is not None and nm not in self.witness:
             if lo is not None and hi is not None:
                 x = (Fraction(lo) + Fraction(hi)) / 2
             elif lo is not None:
@@ -711,6 +721,14 @@ class Explorer(BaseExplorer):
             if not parts:
                 return False
             return z3.Or(*parts) if len(parts) > 1 else parts[0]
+        if isinstance(cond, RatioEQ):
+            ls = [_lin(x) for x in cond.parts]
+            if any(l is None or l is NotImplemented for l in ls):
+                return False
+            if all(not l.t for l in ls):
+                return ls[0].c * ls[3].c == ls[2].c * ls[1].c
+            zs = [(l.z3expr(self) if l.t else 0) + z3.RealVal(str(l.c)) for l in ls]
+            return zs[0] * zs[3] == zs[2] * zs[1]
         if isinstance(cond, AllOf):
             parts = [self._z3_of(c) for c in cond.conds]
             if any(p is False for p in parts):
@@ -759,7 +777,7 @@ class Explorer(BaseExplorer):
             return f
         return not self._check(z3.Not(f))
 
-    def _model(self, extra):
+    def _model(self, extra, dyadic_timeout=20000):
         """a model of PC (and extra), preferring dyadic values k/1024 (exact in floats)"""
         s = self.solver
         s.push()
@@ -771,7 +789,7 @@ class Explorer(BaseExplorer):
             try:
                 for i, (name, v) in enumerate(self.vars.items()):
                     s.add(v * 1024 == z3.ToReal(z3.Int("__k%d" % i)))
-                s.set("timeout", 20000)
+                s.set("timeout", dyadic_timeout)
                 t = time.perf_counter()
                 if s.check() == z3.sat:
                     m, dyadic = s.model(), True
@@ -828,11 +846,19 @@ class Explorer(BaseExplorer):
             if ended != "split":
                 self.npaths += 1
                 if len(self.samples) < self.sample_paths and ended in ("complete", "truncated"):
+                    w = self._safe_witness()
+                    recs = None
+                    if w is not None and self.record_fn is not None:
+                        try:
+                            recs = self.record_fn(self.path_state.get("Q"), {k: Fraction(v) for k, v in w.items() if isinstance(v, str)})
+                        except Exception:
+                            recs = None
                     self.samples.append({
                         "decisions": "".join("T" if v else "F" for v, _ in self.trail),
                         "events": list(self.path_events),
                         "ended": ended,
-                        "witness": self._safe_witness(),
+                        "witness": w,
+                        "records": recs,
                     })
                 if ended in ("complete", "truncated"):
                     self.end_states.add(hash(tuple(self.path_events)))
@@ -848,7 +874,7 @@ class Explorer(BaseExplorer):
 
     def _safe_witness(self):
         try:
-            w = self._model(None)
+            w = self._model(None, dyadic_timeout=1500)
             return {k: v for k, v in (w or {}).items() if not k.startswith("__")}
         except BaseException:
             return None
@@ -881,6 +907,7 @@ class ConcreteExplorer(BaseExplorer):
         self.path_events = []
         self.events = 0
         self.choices = {}
+        self.path_state = {}
         self.missing = []
 
     @staticmethod
@@ -920,6 +947,11 @@ class ConcreteExplorer(BaseExplorer):
         pass
 
     def _eval(self, cond):
+        if isinstance(cond, RatioEQ):
+            n1, d1, n2, d2 = [float(x) for x in cond.parts]
+            if d1 == 0 or d2 == 0:
+                return False
+            return abs(n1 / d1 - n2 / d2) <= 1e-9 * max(1.0, abs(n1 / d1))
         if isinstance(cond, AnyOf):
             return any(self._eval(c) for c in cond.conds)
         if isinstance(cond, AllOf):
